@@ -23,12 +23,13 @@ type cExpr struct {
 }
 
 type cStmt struct {
-	k     string // skip ; := = op= ++ -- var call if for ret brk cont blk discard panic lbl brkL contL switch case default
+	k     string // skip ; := = op= ++ -- var call if for ret brk cont blk discard panic lbl brkL contL switch case default :=2
+	y     string // :=2: the second left side
 	x     string
 	op    string
 	ty    Kind
 	e     *cExpr // may be nil (var without init, ret without value, for without cond, switch without tag)
-	e2    *cExpr // case: second expression (may be nil)
+	e2    *cExpr // case: second expression (may be nil); ret: second operand of `return e, e2`
 	ft    bool   // case: the body ends with fallthrough
 	kids  []*cStmt
 	elseK string // none else elif
@@ -39,6 +40,8 @@ type cFunc struct {
 	params []string
 	ptypes []Kind
 	ret    Kind // KInt, KBool, KVoid
+	two    bool // two results: (ret, ret2)
+	ret2   Kind
 	body   *cStmt
 }
 
@@ -137,6 +140,8 @@ func (s *cStmt) src(b *strings.Builder, checked bool) {
 		s.kids[1].src(b, checked)
 	case ":=":
 		fmt.Fprintf(b, "%s := %s\n", s.x, s.e.src(checked))
+	case ":=2":
+		fmt.Fprintf(b, "%s, %s := %s\n", s.x, s.y, s.e.src(checked))
 	case "=":
 		fmt.Fprintf(b, "%s = %s\n", s.x, s.e.src(checked))
 	case "op=":
@@ -210,6 +215,8 @@ func (s *cStmt) src(b *strings.Builder, checked bool) {
 	case "ret":
 		if s.e == nil {
 			b.WriteString("return\n")
+		} else if s.e2 != nil {
+			fmt.Fprintf(b, "return %s, %s\n", s.e.src(checked), s.e2.src(checked))
 		} else {
 			fmt.Fprintf(b, "return %s\n", s.e.src(checked))
 		}
@@ -275,6 +282,9 @@ func (s *cStmt) tokens(b *[]string) {
 	case ":=", "=":
 		*b = append(*b, s.k, s.x)
 		s.e.tokens(b)
+	case ":=2":
+		*b = append(*b, ":=2", s.x, s.y)
+		s.e.tokens(b)
 	case "op=":
 		*b = append(*b, "op=", s.x, s.op)
 		s.e.tokens(b)
@@ -307,6 +317,12 @@ func (s *cStmt) tokens(b *[]string) {
 		s.kids[1].tokens(b)
 		s.kids[2].tokens(b)
 	case "ret":
+		if s.e2 != nil {
+			*b = append(*b, "ret2")
+			s.e.tokens(b)
+			s.e2.tokens(b)
+			break
+		}
 		*b = append(*b, "ret")
 		optExprTokens(s.e, b)
 	case "blk":
@@ -350,7 +366,9 @@ func (f *cFunc) src(checked bool, rn func(string) string) string {
 		ps = append(ps, p+" "+tyName(f.ptypes[i]))
 	}
 	ret := ""
-	if f.ret != KVoid {
+	if f.two {
+		ret = " (" + tyName(f.ret) + ", " + tyName(f.ret2) + ")"
+	} else if f.ret != KVoid {
 		ret = " " + tyName(f.ret)
 	}
 	fmt.Fprintf(&b, "func %s(%s)%s {\n", f.name, strings.Join(ps, ", "), ret)
@@ -369,6 +387,8 @@ func (p *CoreProg) tokens(rn func(string) string) string {
 		b = append(b, f.params...)
 		if f.ret == KVoid {
 			b = append(b, "void")
+		} else if f.two {
+			b = append(b, "res2")
 		} else {
 			b = append(b, "res")
 		}
@@ -647,11 +667,11 @@ func (g *cGen) genCall(ty Kind, d int) *cExpr {
 	}
 	var cs []*cFunc
 	for _, f := range g.funcs {
-		if f.ret == ty {
+		if f.ret == ty && !f.two {
 			cs = append(cs, f)
 		}
 	}
-	if g.cur != nil && g.selfOK && g.cur.ret == ty && g.inLoop == 0 {
+	if g.cur != nil && g.selfOK && g.cur.ret == ty && !g.cur.two && g.inLoop == 0 {
 		cs = append(cs, g.cur)
 		g.selfOK = g.r.Bool()
 	}
@@ -793,7 +813,16 @@ func (g *cGen) newName(ty Kind) string {
 
 func (g *cGen) stmt() *cStmt {
 	g.budget--
-	w := []int{12, 10, 6, 4, 4, 8, 6, 3, 3, 3, 3, 2, 4, 3}
+	w := []int{12, 10, 6, 4, 4, 8, 6, 3, 3, 3, 3, 2, 4, 3, 0}
+	var twos []*cFunc
+	for _, f := range g.funcs {
+		if f.two {
+			twos = append(twos, f)
+		}
+	}
+	if len(twos) > 0 && (g.inLoop == 0 || g.r.Chance(1, 4)) {
+		w[14] = 8
+	}
 	if g.depth >= 3 {
 		w[5], w[6], w[9], w[12] = 2, 1, 0, 1
 	}
@@ -962,6 +991,14 @@ func (g *cGen) stmt() *cStmt {
 			g.f("stmt:call-drop")
 		}
 		return &cStmt{k: "call", e: g.callTo(f, 2)}
+	case 14: // x, y := f(…)
+		f := twos[g.r.Intn(len(twos))]
+		call := g.callTo(f, 2)
+		x, y := g.fresh(), g.fresh()
+		g.decl(&cVar{name: x, ty: f.ret})
+		g.decl(&cVar{name: y, ty: f.ret2})
+		g.f(fmt.Sprintf("stmt:define2-call%d", len(f.params)))
+		return &cStmt{k: ":=2", x: x, y: y, e: call}
 	case 9: // nested block
 		g.nctx++
 		g.f("stmt:block")
@@ -989,6 +1026,23 @@ func (g *cGen) stmtDefault() *cStmt {
 func (g *cGen) retStmt() *cStmt {
 	if g.cur.ret == KVoid {
 		return &cStmt{k: "ret"}
+	}
+	if g.cur.two {
+		// `return e1, e2`: the compiler walks e2 first (known finding return-operands-reversed); the Lean theorems cover
+		// the forms where e1 cannot panic or e2 is a boolean literal, the byte tie covers all of them
+		s := &cStmt{k: "ret", e: g.genExpr(g.cur.ret, 3)}
+		if g.cur.ret2 == KBool && g.r.Chance(1, 2) {
+			k := "F"
+			if g.r.Bool() {
+				k = "T"
+			}
+			s.e2 = &cExpr{k: k, cst: true, ty: KBool}
+			g.f("stmt:ret2-ok-idiom")
+		} else {
+			s.e2 = g.genExpr(g.cur.ret2, 2)
+		}
+		g.f("stmt:ret2")
+		return s
 	}
 	return &cStmt{k: "ret", e: g.genExpr(g.cur.ret, 3)}
 }
@@ -1364,7 +1418,16 @@ func genCoreProgram(r *prng.R, k int, ntuples int) *Prog {
 		default:
 			f.ret = KInt
 		}
-		if f.ret != KVoid && np < 3 && r.Chance(1, 3) {
+		if f.ret != KVoid && np <= 2 && r.Chance(1, 3) {
+			// two results; `x, y := f(…)` is modelled for at most two arguments
+			f.two = true
+			f.ret2 = KBool
+			if r.Chance(1, 3) {
+				f.ret2 = KInt
+			}
+			g.f("prog:two-result")
+		}
+		if f.ret != KVoid && !f.two && np < 3 && r.Chance(1, 3) {
 			f.params = append(f.params, "d")
 			f.ptypes = append(f.ptypes, KInt)
 			g.f("prog:recursive")
